@@ -403,7 +403,7 @@ def _gating(ctx: Ctx, c: Collector) -> None:
                 if not holds(gt, v):
                     return False
             return True
-        except boolfn.NotBoolean:
+        except (boolfn.NotBoolean, _NeedAtom):
             return None
     too_new = [e for e in raises if fires(e, [1000, 0]) is True]
     pr = []
